@@ -79,7 +79,7 @@ THEOREMS = [
     "incr_eq_scratch", "incrNode_eq_expNode", "sameGit_export_eq",
     "export_import_tree", "import_fuel_mono_partial", "reexport_canon",
     "mode_roundtrip", "mode_roundtrip_git", "mode_kind_agrees_with_import",
-    "sortBy_sorted", "sortBy_id_of_sorted",
+    "sortBy_sorted", "sortBy_id_of_sorted", "objsRoot_wf",
 ]
 RULE = ("native case = one revision of a generated history (script of working-tree operations on up to 3 lanes "
         "with forks and merges), identified by the digest of its tree and parents; non-trivial = the revision has a "
@@ -227,18 +227,35 @@ def build_history(seed_tuple, nsteps):
         do([lane, "commit", "r%d-l%d" % (ncommit[0], lane)])
 
     sub = _StepGen(rng)
+    merged = set()
     for _ in range(nsteps):
         lane = rng.choice(sorted(lanes))
         r = rng.random()
-        if r < 0.08 and len(lanes) < 3 and lanes[0].commits:
+        if r < 0.10 and len(lanes) < 3 and lanes[0].commits:
             new = max(lanes) + 1
             do([new, "fork", rng.randrange(len(lanes[0].commits))])
             state[new] = _mirror(lanes[new].wt)
+            fs = sorted(p for p, k in state[new].items() if k == "f")
+            if fs and rng.random() < 0.6:
+                do([new, "modify", rng.choice(fs), (rng.choice(CONTENTS) + b"F").hex()])
+            for _k in range(rng.randrange(1, 4)):
+                s = sub.step(new, state[new])
+                if s:
+                    do(s)
+            commit(new)
             continue
-        if r < 0.18 and lane != 0 and lanes[lane].commits:
-            do([0, "merge", lane])
-            commit(0)
+        mergeable = [l for l in sorted(lanes) if l != 0 and lanes[l].commits and lanes[l].commits[-1] not in merged]
+        if r < 0.24 and mergeable:
+            src = rng.choice(mergeable)
+            merged.add(lanes[src].commits[-1])
+            do([0, "merge", src])
             state[0] = _mirror(lanes[0].wt)
+            if rng.random() < 0.5:
+                # edit on top of the merge result: the text then differs from both parents
+                fs = sorted(p for p, k in state[0].items() if k == "f")
+                if fs:
+                    do([0, "modify", rng.choice(fs), (rng.choice(CONTENTS) + b"M").hex()])
+            commit(0)
             continue
         if r < 0.32:
             commit(lane)
@@ -1055,14 +1072,42 @@ def _absorb(ctx, R, allc, alll, alli):
         alli.append(impl)
 
 
+def unusual_mode_probe():
+    """informational only (outside the property: no native history produces such a
+    mode): can a git tree with a 0o100664 file be fetched and re-exported?"""
+    from dulwich.objects import Commit
+    from breezy.git.mapping import default_mapping
+    try:
+        grepo = new_git_repo()
+        ostore = grepo._git.object_store
+        c = Commit()
+        c.tree = write_git_tree(ostore, {b"ff": (0o100664, b"x\n")})
+        c.parents = []
+        c.author = c.committer = b"G <g@example.com>"
+        c.author_time = c.commit_time = 1500000000
+        c.author_timezone = c.commit_timezone = 0
+        c.message = b"m\n"
+        ostore.add_object(c)
+        brepo = new_native_repo()
+        rid = default_mapping.revision_id_foreign_to_bzr(c.id)
+        brepo.fetch(grepo, revision_id=rid)
+        from breezy.git.mapping import extract_unusual_modes
+        um = extract_unusual_modes(brepo.get_revision(rid))
+        sc = scratch_export(brepo.revision_tree(rid), um)
+        return "fetched; re-export %s" % ("reproduces the tree id" if sc[""] == c.tree else "gives another tree id")
+    except Exception as e:
+        return "raises %s: %s" % (type(e).__name__, str(e)[:120])
+
+
 def run(ctx, nnative=None, ngit=None):
-    nnative = nnative or ctx.pick(10, 70)
-    ngit = ngit or ctx.pick(8, 60)
+    nnative = nnative or ctx.pick(8, 70)
+    ngit = ngit or ctx.pick(6, 60)
     mode_cases(ctx)
+    ctx.extra["unusual_mode_probe"] = unusual_mode_probe()
     cases, lines, impls = [], [], []
     corpus = _corpus()
     args = [(("corpus", i), 0, c["script"]) for i, c in enumerate(corpus) if "script" in c]
-    args += [((ctx.seed, "n", i), ctx.rng.choice([14, 24, 40]), None) for i in range(nnative)]
+    args += [((ctx.seed, "n", i), ctx.rng.choice([14, 22, 34]), None) for i in range(nnative)]
     for R in ctx.pmap(native_case, args, procs=ctx.pick(4, 8)):
         _absorb(ctx, R, cases, lines, impls)
     gargs = [((ctx.seed, "g", i), ctx.rng.choice([3, 5, 8]), None) for i in range(ngit)]
